@@ -318,6 +318,8 @@ def _pair_rules(out, facts, c, p):
         _f(out, "C02.R1", bool(okb), c, "message cut", "the message must be payload[..len-%d]; found %s" % (SIG_LEN[V], b), c.pae_site["ln"] if c.pae_site else None,
            desc="%s.public: message = payload[..len-%d]" % (V.lower(), SIG_LEN[V]))
         _public_producer(out, facts, p)
+    _payload_codec(out, facts, p)
+    _returned_message(out, facts, c)
     guards = _min_length_guard(out, facts, c)
     _reject_inventory(out, facts, c, guards)
 
@@ -409,8 +411,61 @@ def _kdf_agreement(out, facts, c, p):
         ok = a == b
         _f(out, "C01.R2", ok, c, what + " derivation", "decrypt derives the %s as %s, encrypt as %s" % (what, M.show(a)[:200], M.show(b)[:200]), cc[0][1]["ln"],
            desc="%s.local: %s derived identically on both sides: %s" % (V.lower(), what, M.show(a)[:120]))
+    # producer: one nonce value keys both derivations, is authenticated in the PAE and is written to the wire (the consumer
+    # reads all of them from the wire nonce: a producer using two different values cannot be undone)
+    def nonce_objs(t):
+        """maximal sub-terms that are a nonce object: the nonce parameter or a constructed PasetoNonce"""
+        found = []
+        def rec(x):
+            if not isinstance(x, T):
+                return
+            if (x.op == "param" and x.name == p.params.get("nonce")) or (x.op == "agg" and "PasetoNonce" in str(x.name)):
+                found.append(x)
+                return
+            for y in x.args:
+                rec(y)
+        rec(t)
+        return found
+    uses = []
+    for what, pat in (("authentication key", r"AuthenticationKey<.*>>::(from|try_from)$"), ("encryption key", r"EncryptionKey<.*>>::(from|try_from)$")):
+        for bi, t, ct in _calls_in(p, pat):
+            for o in nonce_objs(ct):
+                uses.append((what + " derivation", o, t["ln"]))
+    for bi, t, ct in _calls_in(p, r"raw_payload::RawPayload<.*Local>>::(from|try_from)$"):
+        for o in nonce_objs(ct.args[0]):
+            uses.append(("wire nonce", o, t["ln"]))
+    if p.pae is not None and hasattr(p, "cls"):
+        for comp, cl in zip(p.pae, p.cls):
+            if cl[0] == "nonce":
+                wire = [u[1] for u in uses if u[0] == "wire nonce"]
+                if wire and comp == M.mk_field(wire[0], "key"):
+                    uses.append(("PAE nonce", wire[0], p.pae_site["ln"]))
+                    continue
+                for o in nonce_objs(comp):
+                    uses.append(("PAE nonce", o, p.pae_site["ln"]))
+    if uses:
+        ref = [u for u in uses if u[0] == "wire nonce"] or uses
+        bad = [u for u in uses if u[1] != ref[0][1]]
+        _f(out, "C01.R2", not bad and len(uses) >= 4, p, "one nonce value on the producing side", "encrypt must derive both keys from, authenticate and emit the same nonce value; %s" % ("; ".join("%s uses %s" % (u[0], M.show(u[1])[:90]) for u in (bad or uses)[:3]) + (" while the wire nonce is %s" % M.show(ref[0][1])[:90] if bad else " (found only %d uses)" % len(uses))),
+           (bad[0][2] if bad else p.e.body["line"]), desc="%s.local: key derivations, PAE and wire use one nonce value" % V.lower())
     # cipher: the same function both ways, keyed by that encryption key
     cc, pc = _calls_in(c, r"CipherText<.*Local>>::from$"), _calls_in(p, r"CipherText<.*Local>>::from$")
+    # C08.R1: the keystream primitive, named by the type whose StreamCipher impl is applied (v1/v3: AES-256 in CTR mode with the whole
+    # 128-bit big-endian block as counter; v4: XChaCha20)
+    want = {"V1": r"aes::\w+::ctr::Aes256Ctr$|CtrCore<aes::\w+::Aes256, ctr::flavors::ctr128::Ctr128BE>|ctr::Ctr128BE<aes::\w*:*Aes256>",
+            "V3": r"aes::\w+::ctr::Aes256Ctr$|CtrCore<aes::\w+::Aes256, ctr::flavors::ctr128::Ctr128BE>|ctr::Ctr128BE<aes::\w*:*Aes256>",
+            "V4": r"chacha20::xchacha::XChaChaCore<U10>|chacha20::XChaCha20$"}[V]
+    if cc and cc[0][2].meta.get("def") in facts.bodies:
+        cb = facts.bodies[cc[0][2].meta["def"]]
+        cv = M.view(facts, cb)
+        recv = set()
+        for bi, t in cv.calls:
+            m = re.match(r"^<(.*) as cipher::stream::StreamCipher>::(apply_keystream|try_apply_keystream|apply_keystream_b2b)$", M.decode_typenum(M.callee_name(t["callee"])))
+            if m:
+                recv.add(m.group(1))
+        okp = len(recv) == 1 and bool(re.search(want, list(recv)[0]))
+        _f(out, "C08.R1", okp, cb["id"], "keystream primitive", "%s.local must apply %s; the keystream is applied by %s" % (V.lower(), "AES-256-CTR (128-bit big-endian counter)" if V != "V4" else "XChaCha20", sorted(recv) or "no StreamCipher"), cb["line"], file=cv.file(),
+           desc="%s.local keystream primitive: %s" % (V.lower(), M.short(sorted(recv)[0]) if recv else "?"))
     ok = len(cc) == 1 and len(pc) == 1 and cc[0][2].name == pc[0][2].name and _nonce_key_marker(cc[0][2].args[1], c) == _nonce_key_marker(pc[0][2].args[1], p)
     _f(out, "C01.R3", ok, c, "cipher agreement", "decrypt and encrypt must apply the same keystream function with the same derived key", cc[0][1]["ln"] if cc else c.e.body["line"],
        desc="%s.local: CipherText::from used both ways with the same derived key" % V.lower())
@@ -509,6 +564,96 @@ def _producer_layout(out, facts, p):
        desc="%s: buffer = nonce || ciphertext || tag, base64url(no pad)" % M.short(d))
 
 
+UTF8 = r"^core::str::converts::from_utf8$|^alloc::string::String::from_utf8$"
+
+
+def _ok_values(v, N):
+    """normalised terms of every value wrapped in Ok(..) and returned"""
+    rt = N.norm(v.return_term())
+    arms = rt.args if rt.op == "phi" else [rt]
+    return [a.args[0].args[0] for a in arms if a.op == "agg" and str(a.name).endswith("Result::Ok") and a.args]
+
+
+def _returned_message(out, facts, c):
+    """C01.R10 / C02.R9: what a consumer returns on success is the strict UTF-8 reading of exactly the authenticated message bytes
+    (public: the message cut; local: the decryption of the ciphertext cut) - not a re-decoded, lossy or differently cut value."""
+    V, P = c.e.vp
+    rl = "C01.R10" if P == "Local" else "C02.R9"
+    oks = _ok_values(c.v, c.N)
+    if not oks:
+        _f(out, rl, False, c, "returned message", "no Ok(..) return value found", c.e.body["line"])
+        return
+    for okv in oks:
+        why = None
+        t = okv.args[0] if okv.op == "tryok" else None
+        if t is None or t.op != "call" or not re.search(UTF8, t.meta.get("tdef", "")):
+            why = "the returned string is %s, not a strict from_utf8 conversion" % M.show(okv)[:140]
+        else:
+            y = t.args[0]
+            if y.op == "field" and y.name == "ciphertext":
+                y = y.args[0]
+            y0 = y.args[0] if y.op == "tryok" else y
+            if P == "Public":
+                if c.helper and y0.op == "call" and y0.meta.get("def") == c.helper:
+                    # the helper's Ok value carries the message cut of its first parameter
+                    hb = facts.bodies[c.helper]
+                    hv = M.view(facts, hb)
+                    hN = M.Normalizer(facts, keep=S.KEEP)
+                    base = lambda z: z.op == "param" and z.name == 1
+                    hoks = _ok_values(hv, hN)
+                    good = bool(hoks) and y0.args and is_payload(y0.args[0])
+                    for h in hoks:
+                        m = M.mk_field(h, "ciphertext")
+                        sl = SL.payload_slice(m, base)
+                        if not (sl is not None and sl[0] == A_Aff(0) and sl[1].terms == {"L": 1} and -sl[1].const == SIG_LEN[V]):
+                            good = False
+                            why = "the helper returns %s, not payload[..len-%d]" % (M.show(m)[:100], SIG_LEN[V])
+                    if not good and why is None:
+                        why = "the helper's result could not be related to the decoded payload"
+                else:
+                    cl = c.classify(y)
+                    if not (cl[0] == "body" and cl[1] == ("head", SIG_LEN[V])):
+                        why = "the returned bytes are %s (%s), not the signed message payload[..len-%d]" % (M.show(y)[:100], cl, SIG_LEN[V])
+            else:
+                if V == "V2":
+                    good = y0.op == "call" and bool(re.search(r"CipherText<.*V2.*Local>>::try_decrypt_from$", y0.name))
+                    if not good:
+                        why = "the returned bytes are %s, not the AEAD decryption result" % M.show(y)[:120]
+                else:
+                    good = y0.op == "call" and bool(re.search(r"CipherText<.*Local>>::from$", y0.name)) and y0.args
+                    if good:
+                        cl = c.classify(y0.args[0])
+                        good = cl[0] == "body" and cl[1] == ("mid", NONCE_LEN[V], TAG_LEN[V])
+                    if not good:
+                        why = "the returned bytes are %s, not the keystream applied to payload[%d..len-%d]" % (M.show(y)[:120], NONCE_LEN[V], TAG_LEN[V])
+        _f(out, rl, why is None, c, "returned message", why or "", c.e.body["line"], desc="%s.%s returns from_utf8(authenticated message bytes)" % (V.lower(), P.lower()))
+
+
+def _payload_codec(out, facts, p):
+    """C01.R5 / C02.R3: the producer writes the payload segment with the engine parse_raw_token decodes it with (URL_SAFE_NO_PAD):
+    any other alphabet or padding makes the library refuse its own tokens for some payload lengths / byte values.
+    v2.local additionally gets its layout rule here (C08.R5: nonce || AEAD output)."""
+    V, P = p.e.vp
+    rl = "C01.R5" if P == "Local" else "C02.R3"
+    rc = _calls_in(p, r"raw_payload::RawPayload<.*>>::(from|try_from)$")
+    if len(rc) != 1:
+        _f(out, rl, False, p, "payload assembly", "expected one RawPayload call in the producer, found %d" % len(rc), p.e.body["line"])
+        return
+    d = rc[0][2].meta.get("def")
+    cb = facts.bodies.get(d)
+    if cb is None:
+        _f(out, rl, False, p, "payload assembly body", "RawPayload body not found", rc[0][1]["ln"])
+        return
+    cv = M.view(facts, cb)
+    names, eng, detail = buffer_layout(facts, cb)
+    _f(out, rl, bool(eng), d, "payload segment engine", "the payload segment must be written with URL_SAFE_NO_PAD, the engine parse_raw_token decodes with; abstract evaluation gives %s" % detail, cb["line"], file=cv.file(),
+       desc="%s writes the payload segment with URL_SAFE_NO_PAD" % M.short(d))
+    if (V, P) == ("V2", "Local"):
+        ok = names == ["P1", "P2"] and eng
+        _f(out, "C08.R5", bool(ok), d, "nonce || aead output", "the v2.local payload buffer must be base64url(nonce || AEAD output); abstract evaluation gives %s (%s)" % (names, detail), cb["line"], file=cv.file(),
+           desc="%s: buffer = nonce || AEAD output, base64url(no pad)" % M.short(d))
+
+
 def _v2_agreement(out, facts, c, p):
     """v2.local: same AEAD type, key, nonce and aad mapping in CipherText::try_from / try_decrypt_from; wire = nonce || aead output."""
     bodies = {}
@@ -570,6 +715,26 @@ def _public_producer(out, facts, p):
     if V == "V1":
         oka = oka and "RSA_PSS_SHA384" in M.show(sig)
     _f(out, "C08.R1", oka, p, "signature primitive", "signature algorithm for %s.public is not the specification's: %s" % (V.lower(), names[:200]), rc[0][1]["ln"], desc="%s.public signs with %s" % (V.lower(), want.split("|")[0]))
+    # C04.R4: the signer is built from the caller's whole private key by the constructor that validates it (Ed25519: the 64-byte
+    # key pair whose public half is checked against the seed) - a signer built from a part of the key signs for another identity
+    ctor = {"V1": r"ring::rsa::keypair::KeyPair::(from_pkcs8|from_der)$", "V2": r"ed25519_dalek::signing::SigningKey::from_keypair_bytes$|ed25519_dalek::.*Keypair::from_bytes$",
+            "V4": r"ed25519_dalek::signing::SigningKey::from_keypair_bytes$|ed25519_dalek::.*Keypair::from_bytes$", "V3": r"ecdsa::signing::SigningKey::<.*NistP384>::(from_bytes|from_slice)$"}[V]
+    whole = T("field", "key", (T("param", p.params.get("key")),))
+    cands = [x for x in sig.calls(ctor)]
+    def strip_conv(x):
+        g = 0
+        while g < 6:
+            g += 1
+            if x.op == "tryok":
+                x = x.args[0]
+            elif x.op == "call" and re.search(r"convert::TryFrom<&\[u8\]> for &\[u8; \d+\]>::try_from$|generic_array::GenericArray::<.*>::from_slice$|<impl .*From<&\[u8\]>.*>::from$", x.name) and x.args:
+                x = x.args[0]
+            else:
+                break
+        return x
+    okc = bool(cands) and all(x.args and strip_conv(x.args[0]) == whole for x in cands)
+    _f(out, "C04.R4", okc, p, "signing key from the whole private key", "the signer of %s.public must be built from the caller's entire private key with %s; found %s" % (V.lower(), ctor.split("|")[0], [M.show(x)[:120] for x in cands] or names[:160]), rc[0][1]["ln"],
+       desc="%s.public: signer = %s(whole private key)" % (V.lower(), M.short(cands[0].name) if cands else "?"))
     d = t.meta.get("def")
     cb = facts.bodies.get(d)
     if cb is not None:
@@ -668,6 +833,24 @@ def _min_length_guard(out, facts, c):
     return found
 
 
+STATEFUL = r"std::thread::local::|core::cell::(Cell|RefCell|OnceCell)|std::sync::(Mutex|RwLock|OnceLock|LazyLock)|once_cell::|lazy_static::|core::sync::atomic::"
+
+
+def _only_from(t, keyparam):
+    """None when the value denoted by t is, on every data arm, computed from the key parameter and from nothing stateful;
+    else a description of the offending sub-term"""
+    for x in t.walk():
+        if x.op == "phi":
+            for a in x.args:
+                if a.op == "call" and re.search(r"FromResidual<.*>>::from_residual$", a.name):
+                    continue    # error propagation arm: no key value flows from it
+                if keyparam not in a.params():
+                    return "one alternative of the value does not come from the key parameter: %s" % M.show(a)[:160]
+        if x.op == "call" and re.search(STATEFUL, x.meta.get("tdef", "") + " " + x.name):
+            return "the value is read from program state: %s" % M.show(x)[:120]
+    return None
+
+
 def _key_rules(out, facts, protos):
     """C04.R1: the whole user key keys the authenticator; C04.R3: the supplied public key reaches the verifier."""
     pats = [(r"authentication_key_impl::v\d_local::<impl .*AuthenticationKey<.*>>::(from|try_from)$", "authentication key"),
@@ -720,8 +903,9 @@ def _key_rules(out, facts, protos):
             if s["kind"] == "sig":
                 ct = pr.N.norm(s["term"])
                 ps = ct.args[0].params()
-                ok = ps == [pr.params.get("key")]
-                _f(out, "C04.R3", ok, pr, "verification key", "the verifying key must be built from the public_key parameter only; it depends on params %s: %s" % (ps, M.show(ct.args[0])[:160]), s["ln"],
+                stateful = _only_from(ct.args[0], pr.params.get("key"))
+                ok = ps == [pr.params.get("key")] and stateful is None
+                _f(out, "C04.R3", ok, pr, "verification key", "the verifying key must be built from the public_key parameter only; %s" % (stateful or "it depends on params %s: %s" % (ps, M.show(ct.args[0])[:160])), s["ln"],
                    desc="%s: verifier key from the public_key parameter" % pr.e.label)
             elif s["kind"] == "delegated":
                 call = pr.N.norm(s["term"])
@@ -732,7 +916,7 @@ def _key_rules(out, facts, protos):
                     if cs["kind"] == "sig":
                         ct = cN.norm(cs["term"])
                         ps = ct.args[0].params()
-                        ok = len(ps) == 1 and call.args[ps[0] - 1].params() == [pr.params.get("key")]
+                        ok = len(ps) == 1 and call.args[ps[0] - 1].params() == [pr.params.get("key")] and _only_from(ct.args[0], ps[0]) is None and _only_from(call.args[ps[0] - 1], pr.params.get("key")) is None
                         _f(out, "C04.R3", ok, pr, "verification key", "the verifying key must be built from the public_key parameter only", s["ln"], desc="%s: verifier key from the public_key parameter (via helper)" % pr.e.label)
 
 
@@ -923,8 +1107,9 @@ def _wrapper_rules(out, facts, entries):
             # on every path
             ok = ok and v.cfg.dominates(ws[0]["block"], v.cfg.return_blocks()[0]) if v.cfg.return_blocks() else False
         _f(out, rule, ok, b["id"], "setter stores its argument", "%s must store its argument in .%s on every path" % (M.short(b["id"]), field), b["line"], file=v.file(), desc="%s stores its argument" % M.short(b["id"]))
-        if rule != "C01.R7":
-            _f(out, "C01.R7", ok, b["id"], "setter stores its argument", "%s must store its argument" % M.short(b["id"]), b["line"], file=v.file(), desc="%s stores its argument" % M.short(b["id"]))
+        for r2 in ("C01.R7", "C02.R5"):
+            if rule != r2:
+                _f(out, r2, ok, b["id"], "setter stores its argument", "%s must store its argument on every path" % M.short(b["id"]), b["line"], file=v.file(), desc="%s stores its argument" % M.short(b["id"]))
     fw = [
         (r"PasetoBuilder::<'a, Version, Purpose>::set_footer$", r"GenericBuilder::<.*>::set_footer$", "C05.R5"), (r"PasetoBuilder::<'a, Version, Purpose>::set_implicit_assertion$", r"GenericBuilder::<.*>::set_implicit_assertion$", "C06.R4"),
         (r"PasetoParser::<'a, Version, Purpose>::set_footer$", r"GenericParser::<.*>::set_footer$", "C05.R5"), (r"PasetoParser::<'a, Version, Purpose>::set_implicit_assertion$", r"GenericParser::<.*>::set_implicit_assertion$", "C06.R4"),
@@ -939,7 +1124,8 @@ def _wrapper_rules(out, facts, entries):
         cs = v.find_calls(inner)
         ok = len(cs) == 1 and v.op_term(cs[0][1]["args"][1]) == T("param", 2) and v.cfg.dominates(cs[0][0], v.cfg.return_blocks()[0])
         _f(out, rule, bool(ok), b["id"], "setter forwards its argument", "%s must forward its argument to the inner setter on every path" % M.short(b["id"]), b["line"], file=v.file(), desc="%s forwards its argument" % M.short(b["id"]))
-        _f(out, "C01.R7", bool(ok), b["id"], "setter forwards its argument", "%s must forward its argument" % M.short(b["id"]), b["line"], file=v.file(), desc="%s forwards its argument" % M.short(b["id"]))
+        for r2 in ("C01.R7", "C02.R5"):
+            _f(out, r2, bool(ok), b["id"], "setter forwards its argument", "%s must forward its argument" % M.short(b["id"]), b["line"], file=v.file(), desc="%s forwards its argument" % M.short(b["id"]))
 
 
 def fmt_arguments(a):
